@@ -17,6 +17,7 @@ def parseSpec : Str → Option Spec
 inductive Req where
   | op (o : Op)
   | resolve (s : Option Spec)
+  | jobs
 
 def parseOp (t : Str) : Option Req :=
   match t with
@@ -34,6 +35,7 @@ def parseOp (t : Str) : Option Req :=
     | _ => none
   | 'R' :: r => some (.resolve (parseSpec r))
   | ['G'] => some (.op .query)
+  | ['J'] => some .jobs
   | _ => none
 
 def insertSorted (k : Nat) : List Nat → List Nat
@@ -50,6 +52,11 @@ def showJob (j : Job) : Str :=
     (match j.state with | .running => ['R'] | .stopped => ['S'] | .done => ['D'] | .unknown => ['U']) ++
     [':'] ++ natToStr j.tag
 
+def showJobShort (j : Job) : Str :=
+  natToStr j.id ++
+    (match j.ann with | .current => ['+'] | .previous => ['-'] | .none => ['_']) ++
+    (match j.state with | .running => ['R'] | .stopped => ['S'] | .done => ['D'] | .unknown => ['U'])
+
 def showTable (t : Table) : Str := if t.isEmpty then ['-'] else joinWith [','] (t.map showJob)
 
 def dump (s : St) (extra : Str) : Str :=
@@ -64,6 +71,7 @@ def extraOf (s : St) (r : Req) (s' : St) : Str :=
       | some j => natToStr j.id ++ [':'] ++ natToStr j.tag
       | none => "none".toList
     | none => "none".toList
+  | .jobs => if s.table.isEmpty then "none".toList else joinWith [','] (s.table.map showJobShort)
   | .op (.waitAll _) => if s'.stuck then "blocked".toList else "ok".toList
   | .op (.waitSpec sp _) =>
     if s'.stuck then "blocked".toList
@@ -75,7 +83,7 @@ def runDump : St → List Req → List Str
   | s, r :: rs =>
     if s.stuck then "stuck".toList :: runDump s rs
     else
-      let s' := match r with | .op o => step s o | .resolve _ => s
+      let s' := match r with | .op o => step s o | _ => s
       dump s' (extraOf s r s') :: runDump s' rs
 
 def parseRule : Str → Option IdRule
